@@ -39,8 +39,10 @@ Definition basic_execute (cfg : config F) (data : str) : res (option F) :=
     match line with
     | [] => Ok None
     | _ =>
-      do st1 <- regex_tokinizer lx (ck_today ck) cfg (s "en") line empty_state;
-      do st2 <- alias_tokinizer lx (ck_today ck) cfg (s "en") st1;
+      (* the tokenizer reads numbers with '.' and no grouping (smartcalc.rs:360-362) *)
+      let cfgn := set_fmt cfg (cf_money cfg) (cf_number cfg) (cf_percent cfg) [46%N] [] (cf_tz cfg) in
+      do st1 <- regex_tokinizer lx (ck_today ck) cfgn (s "en") line empty_state;
+      do st2 <- alias_tokinizer lx (ck_today ck) cfgn (s "en") st1;
       match ts_infos st2 with
       | [] => Ok None
       | infos =>
